@@ -150,8 +150,10 @@ def schedule(l0: LT, l1: LT, m0: LT, m1: LT, n: int, s0: bool, s1: bool, s2: boo
     pre: small(l0, l1, m0, m1)
     post: _
     """
-    d1 = spines.build(SPINE, [l0, l1, l0, l1, l0, l1], n, [True, s0, True])
-    d2 = spines.build(SPINE, [m0, m1, m0, m1, m1, m0], MAXN - n, [s1, True, False])
+    # distinct leaves at the positions the catalogue's filters compare, and at least two candidates in the first document,
+    # so that a value cached for one evaluation and used by the other is visible
+    d1 = spines.build(SPINE, [l0, l1, l1, l0, l0, l1], max(n, 2) if SPINE == "objarr" else n, [True, s0, True])
+    d2 = spines.build(SPINE, [m0, m1, m1, m0, m1, m0], MAXN - n if SPINE != "objarr" else 1 + (MAXN - n) % 2, [s1, True, False])
     solo1 = list(COMPILED.finditer(d1, filter_context=CTX))
     solo2 = list(COMPILED.finditer(d2, filter_context=CTX))
     it1 = drive(COMPILED.finditer_async(d1, filter_context=CTX))
